@@ -256,6 +256,20 @@ def builder_rules(ck):
             ck.ob("DEFUSE", f.path, "threshold-used-as-a-count", len(takes) >= 1 and not byidx,
                   "the first `threshold` entries are selected with take(threshold)" if takes and not byidx else
                   "the signer selects by key value (%s) instead of taking `threshold` many entries: an access structure with gaps in its indices is signed with too few keys" % [t["f"]["name"] for (_, t) in byidx], f.loc(byidx[0][0]) if byidx else f.loc())
+    # a prepared (v0) transaction is signed over the digest of the header and payload it is emitted with: sign() goes through
+    # sign_transaction, which hashes exactly those two values, not through a digest cached at construction time (the fields
+    # are public and may have been adjusted - e.g. the energy - before signing)
+    f = getfn(ck, "rs", CB, T + "construct::PreAccountTransaction::sign")
+    if f:
+        st_ = f.calls(r"transactions::sign_transaction$")
+        direct = f.calls(r"TransactionSigner::sign_transaction_hash$")
+        ok = len(st_) == 1 and not direct
+        if ok:
+            o1, o2 = f.origins(st_[0][1]["args"][1], deep=False), f.origins(st_[0][1]["args"][2], deep=False)
+            ok = ("field", "header") in o1 and ("field", "encoded") in o2
+        ck.ob("DEFUSE", f.path, "signs-the-digest-of-what-it-emits", ok,
+              "sign() = sign_transaction(signer, self.header, self.encoded): the digest is recomputed from the emitted header and payload" if ok else
+              "sign() signs a digest that is not recomputed from the header and payload it emits (cached hash_to_sign): after a field was adjusted the signature does not verify", f.loc())
     # the digest that gets signed is computed after the last change of the header
     n = 0
     for p in sorted(c.paths()):
